@@ -11,7 +11,9 @@ package main
 //
 // multi: plain batches over two slots and MULTI…EXEC batches with commands before and after the block;
 // the scripted member {each position, EXEC included} x its reply {MOVED, ASK, TRYAGAIN} x what follows
-// {value, MOVED}.
+// {value, MOVED}; and the member's first reply {MOVED, ASK} followed by k = 1..4 x {LOADING, TRYAGAIN, CLUSTERDOWN,
+// connection closed after execution}, then a value, under RetryDelay policies {always 0, declines at attempts >= 2,
+// >= 3, negative at once}.
 
 import (
 	"strings"
@@ -30,11 +32,22 @@ type doX struct {
 }
 
 type muX struct {
-	Batch string `json:"batch"` // tokens: g0 s1 (GET / SET on slot 0 / 1), M, E
-	At    int    `json:"at"`    // index of the scripted command, -1 = none
-	Step  string `json:"step,omitempty"`
-	Next  string `json:"next,omitempty"`
-	Max   int    `json:"max,omitempty"`
+	Batch  string   `json:"batch"` // tokens: g0 s1 (GET / SET on slot 0 / 1), M, E
+	At     int      `json:"at"`    // index of the scripted command, -1 = none
+	Step   string   `json:"step,omitempty"`
+	Next   string   `json:"next,omitempty"`
+	Max    int      `json:"max,omitempty"`
+	Steps  []string `json:"steps,omitempty"`  // the whole script of the member (replaces Step / Next)
+	Policy string   `json:"policy,omitempty"` // RetryDelay: "" = 0 for attempts 1..3 | zero | lt2 | lt3 | never
+}
+
+// xPolicies: RetryDelay tables by attempt number (negative beyond the table)
+var xPolicies = map[string][]int64{
+	"":      {0, 0, 0},
+	"zero":  {0, 0, 0, 0, 0, 0, 0, 0}, // never declines within the histories of the table
+	"lt2":   {0},                      // declines at attempts >= 2
+	"lt3":   {0, 0},                   // declines at attempts >= 3
+	"never": {},                       // negative at once
 }
 
 const xSeedBase = 0x726f7574652d7800 // fixed: the table is the same on every run
@@ -92,6 +105,21 @@ func xTable() []Case {
 								continue
 							}
 							add(Case{K: "multi", Mu: &muX{Batch: b.batch, At: at, Step: step, Next: next}})
+						}
+					}
+				}
+			}
+			// a redirect round followed by k retry-class failures of the same member, under policies that depend
+			// on the attempt number: the attempt counter of the call must advance with every retry round
+			for _, first := range []string{"MOVED", "ASK"} {
+				for _, fail := range []string{"LOADING", "TRYAGAIN", "CLUSTERDOWN", "CLOSEAFTER"} {
+					for k := 1; k <= 4; k++ {
+						for _, pol := range []string{"zero", "lt2", "lt3", "never"} {
+							steps := []string{first}
+							for j := 0; j < k; j++ {
+								steps = append(steps, fail)
+							}
+							add(Case{K: "multi", Mu: &muX{Batch: "g0 s1 g0", At: 0, Steps: steps, Policy: pol}})
 						}
 					}
 				}
